@@ -10,7 +10,7 @@ open DryocVerif.Model.Encoding
 
 /-- how the runner builds the concrete encoding from (format, payload) -/
 def encOf (fmt : String) (payload : Bytes) : Enc :=
-  if fmt == "json" then .seq payload
+  if fmt == "json" || fmt == "jsonval" then .seq payload
   else if fmt == "jsonstr" then .bytes (payload.map (fun b => UInt8.ofNat (97 + b.toNat % 26)))
   else .bytes payload
 
